@@ -9,6 +9,11 @@ kinds:
   noise      harmless statements inserted at random places of function bodies
   swapadd    operands of commutative integer additions/multiplications by a
              literal swapped
+  rename2    every local of every function (also those used by nested
+             functions) gets a meaningless new name
+  ifswap     `if c: A else: B` becomes `if not c: B else: A`
+  augassign  `n += <int literal>` on a plain local becomes `n = n + ...` and
+             the other way round
   all        everything at once
 """
 import ast
@@ -174,6 +179,79 @@ class SwapAdd(ast.NodeTransformer):
         return node
 
 
+def rename2(tree, rnd):
+    sys.path.insert(0, os.path.join(os.path.dirname(os.path.abspath(
+        __file__)), ".."))
+    from sa import normalize
+    funcs = [n for n in ast.walk(tree) if isinstance(
+        n, (ast.FunctionDef, ast.AsyncFunctionDef))]
+    # outer functions first; a nested function's own locals are renamed when
+    # its turn comes
+    counter = [rnd.randrange(100)]
+    for f in funcs:
+        names = normalize.local_order(f)
+        names = [n for n in names if not n.startswith("__")]
+        used = {n.id for n in ast.walk(f) if isinstance(n, ast.Name)} | {
+            a.arg for a in ast.walk(f) if isinstance(a, ast.arg)}
+        mapping = {}
+        for n in names:
+            counter[0] += 1
+            new = f"v{counter[0]}"
+            if new not in used:
+                mapping[n] = new
+        if mapping:
+            r = normalize._Rename(mapping)
+            f.body = [r.visit(s) for s in f.body]
+    return tree
+
+
+class IfSwap(ast.NodeTransformer):
+    def __init__(self, rnd):
+        self.rnd = rnd
+
+    def visit_If(self, node):
+        self.generic_visit(node)
+        if node.orelse and not (len(node.orelse) == 1 and isinstance(
+                node.orelse[0], ast.If)) and self.rnd.random() < 0.6:
+            t = node.test
+            if isinstance(t, ast.UnaryOp) and isinstance(t.op, ast.Not):
+                node.test = t.operand
+            else:
+                node.test = ast.UnaryOp(op=ast.Not(), operand=t)
+            node.body, node.orelse = node.orelse, node.body
+        return node
+
+
+class AugAssign(ast.NodeTransformer):
+    def __init__(self, rnd):
+        self.rnd = rnd
+
+    def visit_AugAssign(self, node):
+        if isinstance(node.target, ast.Name) and isinstance(
+                node.op, (ast.Add, ast.Sub)) and isinstance(
+                    node.value, ast.Constant) and isinstance(
+                        node.value.value, int) and self.rnd.random() < 0.7:
+            return ast.Assign(targets=[ast.Name(node.target.id, ast.Store())],
+                              value=ast.BinOp(ast.Name(node.target.id,
+                                                       ast.Load()),
+                                              node.op, node.value))
+        return node
+
+    def visit_Assign(self, node):
+        if len(node.targets) == 1 and isinstance(
+                node.targets[0], ast.Name) and isinstance(
+                    node.value, ast.BinOp) and isinstance(
+                        node.value.op, (ast.Add, ast.Sub)) and isinstance(
+                            node.value.left, ast.Name) and \
+                node.value.left.id == node.targets[0].id and isinstance(
+                    node.value.right, ast.Constant) and isinstance(
+                        node.value.right.value, int) and \
+                self.rnd.random() < 0.7:
+            return ast.AugAssign(target=node.targets[0], op=node.value.op,
+                                 value=node.value.right)
+        return node
+
+
 def main():
     kind, seed, out = sys.argv[1], int(sys.argv[2]), sys.argv[3]
     rnd = random.Random(seed)
@@ -197,6 +275,12 @@ def main():
             tree = noise(tree, rnd, has_logging)
         if kind in ("swapadd", "all"):
             tree = SwapAdd(rnd).visit(tree)
+        if kind in ("rename2", "all"):
+            tree = rename2(tree, rnd)
+        if kind in ("ifswap", "all"):
+            tree = IfSwap(rnd).visit(tree)
+        if kind in ("augassign", "all"):
+            tree = AugAssign(rnd).visit(tree)
         ast.fix_missing_locations(tree)
         open(tgt, "w", encoding="utf8").write(ast.unparse(tree) + "\n")
 
